@@ -1,5 +1,6 @@
 import CijModel.Wire
 import CijModel.Interp
+import CijModel.PPoly
 open Lean Cij Cij.Wire Cij.Interp
 
 /-
@@ -50,11 +51,12 @@ def libOfTable (t : List LibEntry) : Interpolant Float := fun _ ys _ =>
   | some e => e.out
   | none => .error (.other "no-samples-for-these-nodes")
 
-/-- `kernelOf` with the exact kernel lifted from `Rat` for least squares -/
+/-- `kernelOf` with the exact kernel lifted from `Rat` for least squares, and the modelled scipy classes
+(`CijModel/PPoly.lean`, run directly at `Float`) for `pchip` / `akima` -/
 def kernelFloat (m : Method) (order : Nat) (lib : Interpolant Float) : Interpolant Float :=
   match m with
   | .lsqPoly => liftRat (lsqInterpolant order)
-  | _ => kernelOf m order lib
+  | _ => PPoly.kernelFull m order lib
 
 def errOfString : String → Err
   | "TypeError" => .typeError | "ZeroDivisionError" => .zeroDivision | "ValueError" => .valueError
@@ -90,6 +92,22 @@ def inpOfJson (j : Json) : Except String Inp := do
 
 def errJson (e : Err) : Json := Json.mkObj [("error", Json.str e.toString)]
 
+/-- `c11.pchip` / `c11.akima`: the interpolator class on nodes `(xs, ys)` evaluated at `q` with `nu = 0, 1, 2`, `extrapolate=True`;
+a NaN query gives NaN (as scipy); also the node slopes `dydx` -/
+def ppolyOp (slopes : List Float → List Float → List Float) (j : Json) : Except String Json := do
+  let xs ← floats1 (← field j "xs")
+  let ys ← floats1 (← field j "ys")
+  let q ← floats1 (← field j "q")
+  if !PPoly.validNodes xs ys then pure (errJson .valueError) else
+  let ds := slopes xs ys
+  let nan : Float := 0.0 / 0.0
+  let col (nu : Nat) : List Float := q.map fun x => (PPoly.evalAt xs ys ds nu x).getD nan
+  pure (Json.mkObj [("ok", Json.arr #[jFloats1 (col 0), jFloats1 (col 1), jFloats1 (col 2)]),
+                    ("slopes", jFloats1 ds),
+                    ("piece", Json.arr (q.map fun x => match PPoly.locate xs x with
+                        | some i => Json.num ⟨(i : Int), 0⟩ | none => Json.null).toArray)])
+
+
 def handle : Handler := fun op j =>
   match op with
   | "c11.interp" => some do
@@ -101,6 +119,8 @@ def handle : Handler := fun op j =>
       pure (match interpolateModes i.method i.order I i.vols i.vArray i.nq i.np i.freqs with
         | .ok (f, g, d) => Json.mkObj [("ok", Json.arr #[jFloats3 f, jFloats3 g, jFloats3 d])]
         | .error e => errJson e)
+  | "c11.pchip" => some (ppolyOp PPoly.pchipSlopes j)
+  | "c11.akima" => some (ppolyOp PPoly.akimaSlopes j)
   | "c11.nodes" => some do
       -- the (ln x, ln y) node vectors and evaluation points the library kernel receives, per (j,k) (null = skipped)
       let i ← inpOfJson j
